@@ -229,18 +229,19 @@ Definition q1 : str := [34].
 Definition q3 : str := [34; 34; 34].
 Definition bs : N := 92.
 
-Definition last_is_bare_quote (e : str) : bool :=
+Definition last_is_quote (e : str) : bool :=
   match rev e with
-  | a :: b :: _ => N.eqb a 34 && negb (N.eqb b bs)
+  | a :: _ => N.eqb a 34
   | _ => false
   end.
 
-(* Literal._quote_encode *)
+(* Literal._quote_encode (as repaired for finding F7e: in the triple-quoted form a final quote is escaped
+   first - every backslash before it has been doubled - then the remaining triple quotes) *)
 Definition quote_encode (s : str) : str :=
   if mem 10 s then
     let e := replace [bs] [bs; bs] s in
-    let e := if containsb q3 s then replace q3 [bs; 34; bs; 34; bs; 34] e else e in
-    let e := if last_is_bare_quote e then removelast e ++ [bs; 34] else e in
+    let e := if last_is_quote e then removelast e ++ [bs; 34] else e in
+    let e := if containsb q3 e then replace q3 [bs; 34; bs; 34; bs; 34] e else e in
     q3 ++ replace [13] [bs; 114] e ++ q3
   else
     q1 ++ replace [13] [bs; 114] (replace [34] [bs; 34] (replace [bs] [bs; bs] (replace [10] [bs; 110] s))) ++ q1.
@@ -439,17 +440,21 @@ Definition ctor_lex (o : ctor_oracle) (lex : str) (dt : option str) : option str
 
 Inductive wres := WAny | WRaise | WTerm (t : term).
 
-(* Literal(value, language, datatype) as called by from_n3 and by __reduce__ *)
-Definition mk_literal (o : ctor_oracle) (lex : str) (lang dt : option str) : wres :=
+(* Literal(value, language, datatype, normalize) as called by from_n3 (normalize defaults to True) and by
+   __reduce__ (normalize=False since the fix for F7a: the lexical form is kept; the whitespace rewriting of
+   xsd:normalizedString / xsd:token is idempotent and already applied to every lexical form a Literal holds) *)
+Definition mk_literal (o : ctor_oracle) (normalize : bool) (lex : str) (lang dt : option str) : wres :=
   let lang := match lang with Some [] => None | _ => lang end in
   match lang, dt with
   | Some _, Some _ => WRaise
   | Some l, None => if valid_lang l then WTerm (Lit lex None lang) else WRaise
   | None, _ =>
-      match ctor_lex o lex dt with
-      | Some lex' => WTerm (Lit lex' dt None)
-      | None => WAny
-      end
+      if normalize then
+        match ctor_lex o lex dt with
+        | Some lex' => WTerm (Lit lex' dt None)
+        | None => WAny
+        end
+      else WTerm (Lit lex dt None)
   end.
 
 (* Variable(value) *)
@@ -465,7 +470,7 @@ Definition unpickle (o : ctor_oracle) (t : term) : wres :=
   | IRI s => WTerm (IRI s)
   | BNd s => WTerm (BNd s)
   | Var s => mk_var s
-  | Lit lex dt lang => mk_literal o lex lang dt
+  | Lit lex dt lang => mk_literal o false lex lang dt
   end.
 
 (* ------------------------------------------------------------------ *)
@@ -478,6 +483,29 @@ Definition dt_from_n3 (s : str) : option (option str) :=   (* None: not modelled
   | _ => None
   end.
 
+(* the re.sub call of from_n3 (fix for F7b) doubles only a backslash-x that is preceded by an even number of
+   backslashes: a backslash-x whose backslash ends a maximal run of odd length gets one more backslash;
+   [odd] is the parity of the run of backslashes just read *)
+Fixpoint fix_bs_x (odd : bool) (s : str) : str :=
+  match s with
+  | [] => []
+  | c :: r =>
+      if N.eqb c bs then bs :: fix_bs_x (negb odd) r
+      else if N.eqb c 120 && odd then bs :: c :: fix_bs_x false r
+      else c :: fix_bs_x false r
+  end.
+
+(* the other re.sub call of from_n3 (fix for F7e): a quote preceded by a maximal run of an odd number of
+   backslashes loses one of them; [k] counts the backslashes read and not yet written *)
+Fixpoint unesc_quote (k : nat) (s : str) : str :=
+  match s with
+  | [] => repeat bs k
+  | c :: r =>
+      if N.eqb c bs then unesc_quote (S k) r
+      else if N.eqb c 34 && Nat.odd k then repeat bs (pred k) ++ c :: unesc_quote 0 r
+      else repeat bs k ++ c :: unesc_quote 0 r
+  end.
+
 Definition from_n3 (o : ctor_oracle) (s : str) : wres :=
   match s with
   | [] => WAny
@@ -488,8 +516,8 @@ Definition from_n3 (o : ctor_oracle) (s : str) : wres :=
       | None => WAny
       | Some (value, rest) =>
           let value := skipn (length quotes) value in
-          let value := replace [bs; 34] [34] value in
-          let value := replace [bs; 120] [bs; bs; 120] value in
+          let value := unesc_quote 0 value in
+          let value := fix_bs_x false value in
           match after_last [94; 94] rest with
           | Some d =>
               match dt_from_n3 d with
@@ -497,21 +525,21 @@ Definition from_n3 (o : ctor_oracle) (s : str) : wres :=
               | Some None => WRaise
               | Some (Some u) =>
                   match codec value with
-                  | Some v => mk_literal o v None (Some u)
+                  | Some v => mk_literal o true v None (Some u)
                   | None => WRaise
                   end
               end
           | None =>
               let lang := match rest with 64 :: l => Some l | _ => None end in
               match codec value with
-              | Some v => mk_literal o v lang None
+              | Some v => mk_literal o true v lang None
               | None => WRaise
               end
           end
       end
   | 95 :: 58 :: r => WTerm (BNd r)
-  | c :: _ =>
-      if N.eqb c 63 then (if mem 58 s then WRaise else WTerm (BNd s)) else WAny
+  | c :: r =>
+      if N.eqb c 63 then mk_var r else WAny          (* the '?name' branch (fix for F7d) *)
   end.
 
 (* ------------------------------------------------------------------ *)
@@ -760,12 +788,9 @@ Definition is_fixed (o : ctor_oracle) (lex : str) (dt : option str) (l : str) : 
 (* known findings of this suite *)
 Definition tkf (c : tcase) : N :=
   match t_term c with
-  | Var _ => 4                                         (* F7d: from_n3 has no variable branch *)
   | Lit lex dt lang =>
       if negb (is_fixed (t_orc c) lex dt lex && is_fixed (t_orc c) lex dt (n3_lex lex dt)) then 1
-                                                       (* F7a: not a fixed point of the constructor *)
-      else if has_bs_x lex then 2                      (* F7b *)
-      else if has_bs_quote_multiline lex then 5        (* F7e *)
+                                                       (* F7a: not a fixed point of the constructor (text read-back only) *)
       else if mem 9 lex then 7                         (* F7h: the SPARQL parser expands a raw TAB (conformance flag 3 only) *)
       else 0
   | _ => 0
@@ -775,10 +800,11 @@ Definition tmodel_obs (c : tcase) : tobs :=
   let t := t_term c in
   let flag := if N.eqb (tkf c) 0 || N.eqb (tkf c) 7 then Some true else None in
   let flag3 := if N.eqb (tkf c) 0 then Some true else None in
+  let flag1 := Some true in
   {| t_n3 := n3 t;
      t_from := match n3 t with Some s => from_n3 (t_orc c) s | None => WRaise end;
      t_pickle := unpickle (t_orc c) t;
-     t_flags := [flag; flag; flag3] |}.
+     t_flags := [flag1; flag; flag3] |}.
 
 Definition tobs_eqb (m i : tobs) : bool :=
   ostr_eqb (t_n3 m) (t_n3 i) && wres_eqb (t_from m) (t_from i) && wres_eqb (t_pickle m) (t_pickle i)
